@@ -51,7 +51,9 @@ try:
             det[f'{pid}/seed{seed}'] = {'rc': rc, 'violation_lines': sum(1 for l in out.splitlines() if l.startswith('VIOLATION')), 'sites': sites[:6]}
             shutil.rmtree(ev, ignore_errors=True)
     res['detection'] = det
-    res['detected'] = all(v['rc'] == 1 for v in det.values()) if det else None
+    # detected = at least one of the listed properties' quick checks reports a violation on BOTH seeds
+    res['detected_by'] = [pid for pid in pids if all(det[f'{pid}/seed{s}']['rc'] == 1 for s in ('0', '3'))]
+    res['detected'] = bool(res['detected_by']) if det else None
 finally:
     sh(f'git -C /repo worktree remove --force {wt}')
     shutil.rmtree(wt, ignore_errors=True)
@@ -69,6 +71,7 @@ if res.get('valid'):
                           'demo.py on the patched worktree (must fail)', 'quick checks of ' + ', '.join(pids) + ' with VERIF_REPO=<patched worktree>, seeds 0 and 3']
     meta['detection'] = res.get('detection')
     meta['detected_by_quick_checks'] = res.get('detected')
+    meta['detected_by'] = res.get('detected_by')
     json.dump(meta, open(os.path.join(dst, 'meta.json'), 'w'), indent=1)
     print('STORED', dst, 'detected=', res.get('detected'))
 else:
